@@ -320,5 +320,10 @@ def main_wrapper(fn):
         log("MACHINERY FAILURE: %s" % e)
         _cleanup()
         sys.exit(2)
+    except Exception:
+        import traceback
+        log("MACHINERY FAILURE (unexpected exception in the check itself):\n" + traceback.format_exc())
+        _cleanup()
+        sys.exit(2)
     _cleanup()
     sys.exit(rc)
